@@ -40,6 +40,40 @@ CLAIMS = {
  'C14': bounded('Category table of the statement as oracle: no entry inside an ignored category, round trip modulo masking, empty diff when only ignored parts differ; 64 subsets x {negative flags, positive flags, Ignore mapping} through the real argparse actions.', 'DESIGN.md 5/C14'),
 }
 
+TECH_E = 'contract-based deductive verification: path postconditions over the real AST (Tier E effect log) discharged by z3 + bounded monitor as replay harness'
+TRUST_E = ('Trusted: the effect table (assumed contracts of callees and external libraries, each listed in the evidence), the Tier E value abstraction (opaque terms, '
+           'interpreted truthiness/equality), loop abstraction to 0..2 iterations for unknown iterables; the bounded monitor can refute these assumptions but not prove them.')
+
+CLAIMS.update({
+ 'C08': dict(category='proof', design_ref='DESIGN.md 5/C08, Appendix G', note=TRUST_E, technique=TECH_E,
+   text='Every control-flow path of the real main_merge and mergedriver.main, including the exceptional edge after every call, is enumerated from the current source and checked '
+        'against path postconditions (status 0 iff no conflicted decision, inputs read from the three given paths, no output effect before the merge returned, one complete write '
+        'of the returned notebook, no swallowed exception, driver writes in place of the local file and returns main_merge\'s status). All obligations discharged. A fault-injection '
+        'run of the real mains is attached as bounded cross-check / replay harness.'),
+ 'C12': dict(category='other', design_ref='DESIGN.md 5/C12', note='Frame analysis is syntactic (alias rules listed in evidence); history test is bounded.', technique='frame contracts over module-level state (Kit F) + bounded history-vs-fresh-interpreter comparison',
+   text='Mixed: a frame contract over every module-level mutable object, every write / default-insert / history-dependent read site and every mutable default argument found in the current '
+        'sources (one obligation each, all discharged) shows that no undeclared global state exists and that the declared state is only touched by the declared writers; the value-level '
+        'claim (results equal those of a fresh interpreter) is covered by a BOUNDED comparison of call histories with fresh interpreters.'),
+ 'C16': dict(category='other', design_ref='DESIGN.md 5/C16', note=TRUST_E, technique=TECH_E + ' (empty-diff and ESC-freedom clauses); bounded run-time contract for never-fails / prints-something',
+   text='Mixed: the empty-diff clause and the ESC-freedom dataflow (colour flags removed from the git command when colour is off, syntax highlighting only under use_color, ESC literals '
+        'confined to col_const[True]) are PROVED as path / literal obligations on the real code; "never fails" and "prints something for every visible diff" are BOUNDED.'),
+ 'C17': dict(category='proof', design_ref='DESIGN.md 5/C17', note=TRUST_E + ' CONDITIONAL on the assumed GitPython contract; get_repo is outside the subset (bounded only).', technique=TECH_E,
+   text='Path postconditions on the real pushd, _get_diff_entry_stream and changed_notebooks (2500+ obligations incl. exceptional edges and generator close), all discharged: cwd restored on '
+        'every exit, working-tree access only inside pushd(repo_dir), exactly the pairs of one diff entry yielded, no directory context open at a yield. Conditional on the assumed '
+        'GitPython contract; a real-git monitor over random repositories is attached as bounded cross-check.'),
+ 'C18': dict(category='proof', design_ref='DESIGN.md 5/C18', note=TRUST_E + ' CONDITIONAL on the assumed semantics of `git config`.', technique=TECH_E,
+   text='Path postconditions on the 8 real enable/disable functions over the git-command effect log, all discharged: scope flag on every invocation exactly when requested, only own '
+        'keys/sections written, merge.tool/diff.guitool unset only under the path condition that the value read in the same scope is "nbdime", attributes file append-only with exactly '
+        'one newline-led rule guarded by a marker search. Conditional on `git config` semantics, monitored against real git by the bounded module.'),
+ 'C19': dict(category='other', design_ref='DESIGN.md 5/C19', note=TRUST_E, technique=TECH_E + ' + finite per-entry-point obligations; bounded executable model of the documented rule',
+   text='Mixed: layering order of build_config (files with cwd first -> all defaults -> sections, in reversed-MRO order) and the most-specific-first order of the documented sections for each '
+        'of the 11 entry points are PROVED from the current source; recursive_update\'s merge semantics and the flag/default interaction of the parsers are BOUNDED (executable model of the documented rule).'),
+ 'C20': dict(category='proof', design_ref='DESIGN.md 5/C20', note=TRUST_E + ' CONDITIONAL on the assumed tornado/nbformat contracts; result clauses inherit C01 (diff patches base into remote) and C12 (history independence).', technique=TECH_E,
+   text='Path postconditions on the real API handlers, all discharged: store destination is a term over server parameters only, refusal before any effect without an output file, file opened only '
+        'after successful serialisation, close honoured only under closable is True, diff/merge responses are the library results for this request\'s notebooks, stream arguments rewound, '
+        'params never written. An in-process tornado harness is attached as bounded cross-check.'),
+})
+
 NOT_APPLICABLE = {
  'C15': 'no TypeScript toolchain in the sandbox (node_modules emptied): the TS patch/decision code can be neither parsed nor run; a contract on a transcription would verify a model (DESIGN.md 5/C15)',
 }
